@@ -14,7 +14,9 @@ use verif_rt::rng::Rng;
 
 pub struct C14;
 
-const DELIMS: &[&str] = &["", ",", "\t", " ", ", ", "::", " | ", "\u{e9}", "\u{2192}", ";;;;"];
+const DELIMS: &[&str] = &[
+    "", ",", "\t", " ", ", ", "::", " | ", "\u{e9}", "\u{2192}", ";;;;", "----------", " <-sep-> <-sep-> ",
+];
 
 fn kcount(k: usize) -> usize {
     let n = 1usize << (2 * k);
